@@ -1,7 +1,9 @@
 (** Cache/Node.v — the test documents of the cache area as model-side objects.
 
     harness/src/modes/cache.rs defines the Rust types Node<0>, Node<1>, Node<2> (three distinct TypeIds over
-    the same dictionary shape  << /V int /F flags /E0 mask /E1 mask /D [ty ref ty ref …] >>); their
+    the same dictionary shape  << /V int /F flags /E0 mask /E1 mask /D [ty ref ty ref …] >>;
+    flags: bit 0 = nested errors are swallowed, bits 1..3 = types that are *lazy* (do not follow /D, like
+    Vec<Ref<T>> against Vec<MaybeRef<T>>), bits 4.. = the error kind raised by the E0/E1 masks, 0 = Other); their
     `from_primitive` is [node_prog] below, their value digest is [digest].  This file is the *document
     abstraction* ([prog] of Cache/Model.v) for those documents — it is harness code that is modelled here,
     not library code; the library code under test is what Model.v / Conc.v describe.  No proofs. *)
@@ -16,7 +18,7 @@ Definition item (o : outcome) : list N :=
 Definition digest (ty : tytag) (v : N) (kids : list outcome) : N :=
   fold_left dstep ([ty; v] ++ flat_map item kids) 7.
 
-Record node := mkNode { n_v : N; n_swallow : bool; n_e0 : N; n_e1 : N; n_deps : list (tytag * ref) }.
+Record node := mkNode { n_v : N; n_swallow : bool; n_lazy : N; n_kind : N; n_e0 : N; n_e1 : N; n_deps : list (tytag * ref) }.
 
 (* cache.rs: the loop over /D in Node::from_primitive *)
 Fixpoint deps_prog (swallow : bool) (deps : list (tytag * ref)) (acc : list outcome)
@@ -39,9 +41,9 @@ Definition node_prog (doc : list (ref * node)) (ty : tytag) (r : ref) : comp :=
   match lookup r doc with
   | None => Ret (Err E_FREE)
   | Some nd =>
-      if N.testbit (n_e0 nd) ty then Ret (Err E_OTHER)
-      else deps_prog (n_swallow nd) (n_deps nd) []
-             (fun kids => if N.testbit (n_e1 nd) ty then Err E_OTHER else Ok (digest ty (n_v nd) kids))
+      if N.testbit (n_e0 nd) ty then Ret (Err (n_kind nd))
+      else deps_prog (n_swallow nd) (if N.testbit (n_lazy nd) ty then [] else n_deps nd) []
+             (fun kids => if N.testbit (n_e1 nd) ty then Err (n_kind nd) else Ok (digest ty (n_v nd) kids))
   end.
 
 (** ---- decoding of harness fields (all-numeric rows) ---------------------------------------- *)
@@ -61,7 +63,8 @@ Fixpoint pairs (l : list N) : list (N * N) :=
 (* row: id v flags e0 e1 ty1 r1 ty2 r2 … *)
 Definition node_of_row (row : list N) : option (ref * node) :=
   match row with
-  | id :: v :: fl :: e0 :: e1 :: ds => Some (id, mkNode v (N.testbit fl 0) e0 e1 (pairs ds))
+  | id :: v :: fl :: e0 :: e1 :: ds =>
+      Some (id, mkNode v (N.testbit fl 0) ((fl / 2) mod 8) (if fl / 16 =? 0 then E_OTHER else fl / 16) e0 e1 (pairs ds))
   | _ => None
   end.
 Fixpoint somes {A} (l : list (option A)) : list A :=
